@@ -5,7 +5,7 @@
      S <ext> <ty> <ty>       -> "true" | "false"                  (issub a b)
      K <ext> <ty> <ty>       -> "true" | "false"                  (compat param val)
      P <ext> <ty> <ty>       -> "<int>"                           (parent_dist a p)
-   <ext>  ::= - | (<scalars> <objtypes> <casts> <callables>)       user-schema additions
+   <ext>  ::= - | (<scalars> <objtypes> <casts> <callables> <pointers>)   user-schema additions
    all of <ext>, <expr>, <ty> are s-expressions (see harness/props/c12.py). *)
 
 type sx = A of string | L of sx list
@@ -71,17 +71,18 @@ let rec expr_of (x : sx) : expr =
   | L [A "tidx"; e; i] -> ETupIdx (expr_of e, num i)
   | L [A "idx"; e; i] -> EIndex (expr_of e, expr_of i)
   | L [A "objset"; o] -> EObj (num o)
+  | L [A "ptr"; e; p] -> EPtr (expr_of e, num p)
   | _ -> failwith "expr"
 
 let tm_of = function A "one" -> TmOne | A "opt" -> TmOpt | A "set" -> TmSet | _ -> failwith "typemod"
 let pk_of = function A "pos" -> PkPos | A "var" -> PkVar | A "named" -> PkNamed | _ -> failwith "pkind"
 
-let ext_cache : (string, sig0) Hashtbl.t = Hashtbl.create 16
+let ext_cache : (string, sig0 * ((n * n) * ty) list) Hashtbl.t = Hashtbl.create 16
 
-let sig_of (raw : string) (x : sx) : sig0 =
+let sig_of (raw : string) (x : sx) : sig0 * ((n * n) * ty) list =
   match x with
-  | A "-" -> std_sig
-  | L [L scs; L obs; L cs; L fs] ->
+  | A "-" -> (std_sig, [])
+  | L [L scs; L obs; L cs; L fs; L ps] ->
     (match Hashtbl.find_opt ext_cache raw with
      | Some s -> s
      | None ->
@@ -110,7 +111,10 @@ let sig_of (raw : string) (x : sx) : sig0 =
                    | _ -> failwith "param") ps;
                cl_rmod = tm_of rm; cl_ret = ty_of rt }
            | _ -> failwith "callable") fs in
-       let s = sig_extend std_sig scs obs cs fs in
+       let ptrs = List.map (function
+           | L [o; p; t] -> ((num o, num p), ty_of t)
+           | _ -> failwith "ptr") ps in
+       let s = (sig_extend std_sig scs obs cs fs, ptrs) in
        Hashtbl.replace ext_cache raw s; s)
   | _ -> failwith "ext"
 
@@ -163,13 +167,13 @@ let () =
           let cmd = line.[0] in
           let raw = ext_raw line in
           let rest = String.sub line (2 + String.length raw) (String.length line - 2 - String.length raw) in
-          let sg = (match Hashtbl.find_opt ext_cache raw with
+          let (sg, ptrs) = (match Hashtbl.find_opt ext_cache raw with
               | Some s -> s
               | None -> sig_of raw (List.hd (parse_sexps raw))) in
           let items = parse_sexps rest in
           (match cmd, items with
            | 'T', [e] ->
-             (match stmt_type_clean sg s_int64 (expr_of e) with
+             (match stmt_type_clean sg s_int64 ptrs (expr_of e) with
               | Ok (t, clean) -> "OK " ^ str_ty t ^ (if clean then "" else " unclean")
               | Err e -> "ERR " ^ str_err e)
            | 'C', [a; b] ->
